@@ -154,9 +154,20 @@ def run_property(prop, tier, replay=None):
             if not aok:
                 broken.append("Print Assumptions run failed")
         discharged = obligations if pok else 0
+        coqchk = None
+        if pok and tier == "thorough" and os.environ.get("VERIF_COQCHK", "1") != "0":
+            # independent re-check of the compiled Props file and everything it depends on
+            rc, cout, cdur = V.sh(["coqchk", "-silent", "-o", "-Q", "theories", "LMD", "LMD." + prop.props_module],
+                                  cwd=V.COQ, timeout=3000)
+            axioms = [l.strip() for l in cout.splitlines() if l.strip().startswith("* Axioms")]
+            tailtxt = " ".join(cout.split()[-60:])
+            coqchk = {"rc": rc, "seconds": round(cdur, 1), "summary": tailtxt[-600:]}
+            V.log("coqchk rc=%d in %.0fs" % (rc, cdur))
+            if rc != 0:
+                broken.append("coqchk rejects %s: %s" % (prop.props_module, tailtxt[-300:]))
         if hok:
             import shutil
-            shutil.copyfile(os.path.join(V.WORK, "bin", "lmdverif"), private_harness(wd))
+            shutil.copyfile(V.HARNESS_BIN, private_harness(wd))
             os.chmod(private_harness(wd), 0o755)
     # 5. streams (outside the build lock, with a private copy of the harness binary)
     if True:
@@ -224,6 +235,7 @@ def run_property(prop, tier, replay=None):
             rp = replay_path("broken")
             json.dump({"property": prop.pid, "no_failing_input_found": True,
                        "no_longer_checks": broken,
+            "coqchk": coqchk,
                        "searched": {k: v for k, v in cov["streams"].items()},
                        "inputs": []}, open(rp, "w"), indent=1)
             violations.append((rp, "; ".join(broken)[:300], True))
@@ -245,6 +257,7 @@ def run_property(prop, tier, replay=None):
             "cases_per_stream": cov["streams"], "input_histogram": cov["histogram"],
             "skipped_outside_model_fragment": cov.get("skipped_outside_fragment", 0),
             "no_longer_checks": broken,
+            "coqchk": coqchk,
             "known_findings_hit": [f.get("id") for f in known_hits],
         },
         "assumptions": prop.assumptions,
